@@ -307,7 +307,8 @@ PROPS = {
         tests=[T("TestC11", Q(4, timeout=300, shards=4, shrinktime="5s"), Q(40, timeout=1500, shards=16, shrinktime="20s")),
                T("TestC11RYW", Q(25, timeout=300, shards=2, shrinktime="20s"), Q(120, timeout=1500, shards=8, shrinktime="60s")),
                T("TestC11Order", Q(20000, timeout=300), Q(200000, timeout=900, shards=4)),
-               T("TestC11Sweep", Q(4, timeout=300, shards=2, shrinktime="10s"), Q(40, timeout=900, shards=8, shrinktime="30s"))],
+               T("TestC11Sweep", Q(4, timeout=300, shards=2, shrinktime="10s"), Q(40, timeout=900, shards=8, shrinktime="30s")),
+               T("TestC11Open", Q(6000, timeout=300), Q(60000, timeout=900, shards=4))],
         rule="TestC11: timed scenarios on the real storage.IndexNotificationQueue (its own Run goroutine, hard-coded 1 s sweep): 2-12 events spread over 3.3 s on two tables - add(revision 0-6, optionally cancelled 1-2500 ms later), "
              "notify(revision 0-6), len - followed by one more sweep and a responsiveness probe; each rapid case runs 150 scenarios concurrently (evaluations = scenarios). Every waiter reads its channel once, like ForwardingKVServer. Oracle: exactly one "
              "answer; success only if a notification >= its revision for its table had started before; error only after its context ended; never a second answer; an unanswered waiter while Len(table)==0 is lost (timing-free); a waiter cancelled >2.5 s ago "
